@@ -481,11 +481,17 @@ def programs(draw, bad_refs=False, max_forms=4, prompt_modes=('none', 'total', '
     # twin lines: a second line whose name has the same natural-sort key ('2'/'02', '1a'/'1_a') and the
     # same definition, so both wait for and are released by the same things in the same round
     for f in forms:
-        if f['lines'] and draw(st.integers(0, 4)) == 0:
+        if f['lines'] and draw(st.integers(0, 2)) == 0:
             src = f['lines'][draw(st.integers(0, len(f['lines']) - 1))]
             n_ = src['name']
             twin = ('0' + n_) if n_.isdigit() else (n_[:-1] + '_' + n_[-1] if n_[:-1].isdigit() and n_[-1].isalpha() else None)
             if twin and twin not in [l['name'] for l in f['lines']]:
+                # half of the time both wait for the same line of another form (added by reference, so they are blocked
+                # at the first attempt and released together)
+                others = [ref for ref in all_line_refs if ref.split('.')[0].split(':')[0] != f['name']]
+                if others and draw(st.booleans()):
+                    src['expr'] = ['add', ['val', draw(st.sampled_from(others))], src['expr']]
+                    src['required'] = True
                 f['lines'].append({'name': twin, 'required': True, 'expr': json.loads(json.dumps(src['expr']))})
     request = [forms[0]['name']]
     for f in forms[1:]:
